@@ -142,9 +142,14 @@ def balanced(text, comp):
             node = stack.pop()
             (stack[-1][1] if stack else roots).append(node)
 
+    # the nesting of the blocks is the nesting of the tree; every END repeats the text of its BEGIN (checked above).  The name
+    # text itself is not compared with c.name: a name containing a backslash is written escaped (findings C01-F1 / C05-F2)
     def shape(c):
-        return [c.name, [shape(s) for s in c.subcomponents]]
-    return not stack and roots == [shape(comp)]
+        return [shape(s) for s in c.subcomponents]
+
+    def tshape(node):
+        return [tshape(x) for x in node[1]]
+    return not stack and len(roots) == 1 and tshape(roots[0]) == shape(comp)
 
 
 def run(ctx, res):
